@@ -709,12 +709,14 @@ func (o *Oracle) stepRead(r wire.Req) *Fail {
 	}
 	switch o.ro {
 	case sOpen:
-		if r.N >= 1<<31 || r.Off > 1<<62 {
+		if r.N >= 1<<31 {
 			return o.readLoose(r)
 		}
+		// "every read request (offset, limit < 2^31)": the offset is the 64-bit unsigned field of the
+		// request, whatever its value; at or beyond the object's size the answer is a count of 0
 		v := o.roView
 		m := int64(0)
-		if int64(r.Off) < v.Size() {
+		if r.Off < uint64(v.Size()) {
 			m = min(int64(r.N), v.Size()-int64(r.Off))
 		}
 		b, f := o.readFull(r.Op, 4, "READ length announcement")
@@ -885,7 +887,7 @@ func (o *Oracle) stepCrit(r wire.Req) *Fail {
 	if f := o.send(r); f != nil {
 		return f
 	}
-	if o.ro != sOpen || r.N >= 1<<31 || r.Off > 1<<62 {
+	if o.ro != sOpen || r.N >= 1<<31 || (r.N == 0 && r.Off > 1<<62) {
 		if o.ro == sOpen {
 			// out-of-claim arguments on a known file: not satisfiable in practice -> must end or deliver prefix
 			o.ro = sFree
